@@ -83,6 +83,20 @@ of its source, the run completes, inputs untouched).  Properties whose 1.0 value
 (binary content, file reference without value, values with different units) are compared by name only.  Not generated:
 unnamed Properties and repository / include links (whether such a file is convertible, and what a link to nowhere
 becomes, the statement does not say; links would also need a network).
+
+run_shapes(tier, seed): the shape of the directory tree as a dimension of its own (SHAPES x DIR_STYLES x OUT_MODES x
+recursive on / off, all tools): directories that hold only sub directories (1 - 3 levels above the first file, below the
+input directory / a directory with files, on two branches, the input directory itself), files at every depth, empty
+directories (also chains, also nothing else), the same directory names in sibling directories, directory names with dots /
+named like odML files / with blanks / non-ASCII; output location implicit, explicit and empty, explicit and already
+holding directories (as after an earlier run), explicit and inside the input directory.  Files are valid (command line
+tools: all 8 kinds, with / without one file to be skipped next to the deepest file); the oracle is the one above: every
+valid file at every depth in scope gets its output with the content of its source, the run completes, inputs untouched,
+new entries only below the output location.  Not generated: the same file base name in two directories (the quantifier
+demands unique base names) and an implicit output location that exists already (the statement speaks of a newly created
+one).  Format converter, output directory inside the input directory, recursion on: its own outputs are part of the tree
+it walks - whether it meets them the statement does not say, so only inputs-unchanged, writes-only-to-output and the
+content of the first generation of outputs are checked there.
 """
 from __future__ import annotations
 
@@ -1612,7 +1626,8 @@ def run_fc(ck, case, target, recursive, explicit, via_args, expect_ok, ignore_be
             check_rdf_output(ck, case, '%s:%s' % (tool, target), rel, src, RDF_TARGETS[target][1], wit)
         else:
             check_odml_output(ck, case, '%s:%s' % (tool, target), rel, src, wit)
-    if status == 'ret' and expect_ok:
+    if (status == 'ret' or case.shape) and expect_ok:
+        # (trees that are special by their shape: also after a run that did not complete, to say which files it cost)
         for f in in_scope:
             if not by_src.get(f['base']):
                 ck.fail('convertible-gets-output', '%s:%s:%s' % (tool, target, f['label']), wit,
@@ -2327,7 +2342,7 @@ SHAPES = {
     'same-directory-names-in-siblings': ('same-directory-names-in-sibling-directories',
                                          ['a/rec', 'b/rec', 'rec', 'rec/rec'], []),
     'empty-directories': ('empty-directories', ['', 'a'], ['e', 'a/e', 'f/g/h']),
-    'empty-directories-next-to-deep-files': ('empty-directories', ['a/b', 'a/b/c'], ['a/e', 'a/b/e', 'e']),
+    'empty-directories-next-to-deep-files': ('empty-directories', ['', 'a', 'a/b'], ['a/e', 'a/b/e', 'e', 'a/b/f/g']),
     'empty-directories-only': ('empty-directories', [], ['e', 'f/g']),
 }
 GAP_SHAPES = [k for k in SHAPES if 'only-sub' in SHAPES[k][0]]
@@ -2425,7 +2440,7 @@ def run_shapes(tier, seed):
              '(mode, recursive) combinations, rotating, for both command line tools and the targets v1_1, odml, turtle, '
              'the other RDF targets on a third of the plan each; quick: every shape recursive (shapes with directories '
              'holding only sub directories in 2 modes), one non-recursive run per kind of shape, every style on 2 '
-             'shapes, command line tools alternating, targets v1_1 / odml / one RDF target rotating; file names with '
+             'shapes, both command line tools, targets v1_1 / odml / one RDF target rotating; file names with '
              'dots / blanks / non-ASCII characters on 3 shapes; '
              'oracle: inputs byte-identical, new entries only below the output location (what the output location held '
              'stays), every valid file at every depth in scope has its output with the content of its source, the run '
@@ -2446,8 +2461,6 @@ def run_shapes(tier, seed):
             # ---- command line tools
             kinds = GOOD[n % len(GOOD):] + GOOD[:n % len(GOOD)]
             for ti, tool in enumerate(CLI_TOOLS):
-                if quick and (n + ti) % 2 and shape not in GAP_SHAPES:
-                    continue
                 for with_bad in ((True, False) if not quick else (bool((n + ti) % 2),)):
                     bad = (CORE_BAD + ENC_BAD)[(n + ti) % 7] if with_bad else None
                     case = shape_case(shape, style, mode, kinds, bad)
@@ -2484,7 +2497,7 @@ def run_shapes(tier, seed):
                         continue
                     target = None if tool in CLI_TOOLS else ('odml', 'turtle', 'nt')[(i + j) % 3]
                     kinds = GOOD if tool in CLI_TOOLS else ['v11-xml', 'v11-odml']
-                    case = shape_case(shape, DIR_STYLES and ('plain', 'blanks', 'non-ascii')[i], mode, kinds,
+                    case = shape_case(shape, ('plain', 'blanks', 'non-ascii')[i], mode, kinds,
                                       name_style=name_style)
                     col.case(cls_key=('shape-names', shape, name_style, mode, tool, target),
                              sample='%s shape %s, %s file names, output %s' % (tool, shape, name_style, mode))
